@@ -203,7 +203,9 @@ class C15(E1Check):
             spec0 = env.data["spec"]
             need = sum(1 for p, nd in paths(spec0) for ph in ("prepare", "start") if nd.get(ph) is not None)
             rel = sum(1 for ev in tr0[:ti0] if ev[:2] == ("env", "gate") and ev[2].endswith(":g")) if ti0 is not None else need
-            if ("log", "Application started") not in tr0 or rel < need:
+            n_phase_end = sum(1 for ev in tr0 if ev[0] == "phase-" and ev[2] in ("prepare", "start"))
+            started0 = ("log", "Application started") in tr0 or n_phase_end >= need  # (the log wording is not part of the property)
+            if not started0 or rel < need:
                 env.fail("deadlock", "the application hangs although its start-up did not complete in time")
             return
         if outcome != "done":
@@ -264,10 +266,15 @@ class C15(E1Check):
                 exp = None
         elif k == "signal":
             ri = next((i for i, ev in enumerate(tr) if ev == ("log", "Received signal")), None)
-            if ri is None:
+            di = next((i for i, ev in enumerate(tr) if ev[:2] == ("env", "signal")), None)
+            if ri is None and di is not None:
+                # the runner's log records are not part of the property (they may be reworded): without them only the clear
+                # zone is judged - the signal was delivered while start-up still needed at least two completions
+                exp = ("exit", 1) if released_before(di) < n_gates - 1 else None
+            elif ri is None:
                 exp = ("return",) if program["cli"] else None
                 if not program["cli"]:
-                    fail("signal-lost", "the application ended although no signal was received")
+                    fail("signal-lost", "the application ended although no signal was delivered")
             elif started is not None and ri > started:
                 exp = ("return",) if not program["cli"] else None
             elif released_before(ri) < n_gates:
